@@ -5,6 +5,9 @@ use ast_grep_core::meta_var::MetaVarEnv;
 use ast_grep_core::{Doc, Matcher, Node};
 
 use std::borrow::Cow;
+#[cfg(feature = "verif-hooks")]
+use crate::verif_hooks::VecSet as HashSet;
+#[cfg(not(feature = "verif-hooks"))]
 use std::collections::HashSet;
 
 use bit_set::BitSet;
@@ -416,5 +419,24 @@ mod test {
   fn test_verify_util() {
     let rule = deser(r"nthChild: { position: 2, ofRule: {pattern: '$A'} }");
     assert!(rule.verify_util().is_ok());
+  }
+}
+
+/// Verification hooks: thin wrappers over private kernels (cargo feature `verif-hooks`).
+#[cfg(feature = "verif-hooks")]
+#[doc(hidden)]
+pub mod verif_hooks {
+  /// `parse_an_b`: Ok((step_size, offset)) or Err(0 = illegal character, 1 = invalid syntax, 2 = other)
+  pub fn parse_an_b(input: &str) -> Result<(i32, i32), u8> {
+    match super::parse_an_b(input) {
+      Ok(p) => Ok((p.step_size, p.offset)),
+      Err(super::NthChildError::IllegalCharacter(_)) => Err(0),
+      Err(super::NthChildError::InvalidSyntax) => Err(1),
+      Err(_) => Err(2),
+    }
+  }
+  /// `FunctionalPosition::is_matched` on a 0-based index
+  pub fn is_matched(step_size: i32, offset: i32, index: usize) -> bool {
+    super::FunctionalPosition { step_size, offset }.is_matched(index)
   }
 }
